@@ -15,7 +15,8 @@ from ..core.minieval import Evaluator, Unsupported, Raised
 from ..core.report import where
 
 TECHNIQUE = 'CFG dominance of the acceptance test; exhaustive abstract evaluation of the decision functions over the sign domain; who-may-define rule for cost tables'
-LEVEL_TEXT = 'Decides the acceptance logic completely over its finite abstract domain (signs of the savings x criterion), that a replacement is stored only on the accepting branch, that prices come from one table with is_push0 consulted everywhere, and that totals count the emitted block. Does not decide that the cost model matches the EVM.'
+LEVEL_TEXT = ('Decides the acceptance logic completely over its finite abstract domain (signs of the savings x criterion), that a replacement is stored only on the accepting branch, that prices come from one table with is_push0 consulted everywhere, and that totals count the emitted block. Does not decide that the cost model matches the EVM.'
+              " Added in seeding rounds 7-9: log entries and replacement stores lie under the accepting edge (C08.g); an accepted tie is worse in none of the criterion's tie-breakers (C08.b).")
 
 EXPLANATION = ("(a) CFG dominance: in optimize_asm_block_asm_format a non-None entry of the replacement map is stored "
                "only on the true branch of block_has_been_optimized(original, candidate, criterion); (b) exhaustive "
